@@ -81,9 +81,13 @@ func New(c Client, tree *pb.Tree, workingDir string) *CASFileSystem {
 	}
 }
 
+// maxSymlinkDepth is the number of symlinks Open follows before it gives up, so that a symlink loop in the
+// tree is an error rather than an unbounded recursion.
+const maxSymlinkDepth = 40
+
 // Open opens the file with the given name
 func (fs *CASFileSystem) Open(name string) (iofs.File, error) {
-	return fs.open(filepath.Join(fs.workingDir, name))
+	return fs.open(filepath.Join(fs.workingDir, name), 0)
 }
 
 // FindNode returns the node proto for the given name. Either FileNode, DirectoryNode or SymlinkNode will be set, or an
@@ -107,7 +111,10 @@ func (fs *CASFileSystem) ChangeDir(path string) *CASFileSystem {
 	}
 }
 
-func (fs *CASFileSystem) open(name string) (iofs.File, error) {
+func (fs *CASFileSystem) open(name string, depth int) (iofs.File, error) {
+	if depth > maxSymlinkDepth {
+		return nil, fmt.Errorf("%v: too many levels of symbolic links", name)
+	}
 	fileNode, dirNode, linkNode, err := fs.findNode(fs.root, name)
 	if err != nil {
 		return nil, err
@@ -117,7 +124,7 @@ func (fs *CASFileSystem) open(name string) (iofs.File, error) {
 		if filepath.IsAbs(linkNode.Target) {
 			return nil, fmt.Errorf("%v: symlink target was absolute which is invalid", name)
 		}
-		return fs.open(filepath.Join(filepath.Dir(name), linkNode.Target))
+		return fs.open(filepath.Join(filepath.Dir(name), linkNode.Target), depth+1)
 	}
 
 	if fileNode != nil {
